@@ -1,6 +1,7 @@
 use crate::framework::Scenario;
 
 pub mod c11_framing;
+pub mod c12_sequence;
 pub mod c15_handshake;
 pub mod c30_browse;
 pub mod c32_attributes;
@@ -24,6 +25,7 @@ pub fn all() -> Vec<Box<dyn Scenario>> {
     for id in ["C07", "C08", "C09"] {
         v.push(Box::new(wire_family::Wire { id }));
     }
+    v.push(Box::new(c12_sequence::C12));
     v.push(Box::new(c30_browse::C30));
     v.push(Box::new(c32_attributes::C32));
     v.push(Box::new(c33_swarm::C33));
